@@ -32,6 +32,7 @@ def join(obs_by_cfg, out):
 def run(prop, tier, seed, work, ev):
     tlc_ok("mc/MC_Convert.tla", "MC_Convert.cfg", work, ev=ev, label="conversion as coded = JSON image of the input, for all 4 feature sets x inputs")
     tlc_must_fail("mc/MC_Convert.tla", "MC_Convert_neg.cfg", work, invariant="Inv_ConfigIndependent", ev=ev)
+    tlc_must_fail("mc/MC_Convert.tla", "MC_Convert_f17.cfg", work, invariant="Inv_ConfigIndependent", ev=ev)    # the conversion as found (F17, fixed)
     drivers = {}
     missing = []
     for c in CONFIGS:
@@ -82,6 +83,10 @@ def run(prop, tier, seed, work, ev):
                 if '"fam": "%s"' % fam in line:
                     f.write(line)
         files.append((eng_eval.POOL_LABEL[fam], c, "search", eng_eval.POOLS + ".docs"))
+    import eng_sync
+    c = work.path("long.cases")
+    eng_sync.long_pool(c)
+    files.append(("long arrays (192..4000 elements): tied extremes, failures in different quarters", c, "search", None))
     for label, cases, engine, docs in files:
         obs = {}
         for cfg, drv in drivers.items():
